@@ -12,7 +12,8 @@ META = ("other",
         "dyn SqlWriter (only write_fmt/write_str/write_char/push_param/as_writer, to_string only in build_collect*; no Any/"
         "downcast); R3 sibling agreement of the entry points of the 5 statement types and of the #[inherent] forwards; "
         "R4 renderers take statements by shared reference, every statement-reachable type is Freeze, no clock/random/env/"
-        "hash-order source in the crate's renderers",
+        "hash-order source in the crate's renderers; R5 every push_param call hands over the rendering backend itself (self) as "
+        "the builder of the inline literal and sits in a prepare_value impl",
         "one obligation per impl, call site on a writer value, entry point, forward, renderer parameter and type")
 
 SQLW = "crate::prepare::SqlWriter"
@@ -255,10 +256,54 @@ def check_immutability(run, f, cfg):
     run.ob("C02.R4", "deny-list", True, "%d calls inside renderer functions inspected against the deny list" % nd, cfg=cfg)
 
 
+def check_push_param_sites(run, f, cfg):
+    """R5: the inline writer asks the builder it is handed for the literal, so every push_param call must hand over the
+    rendering backend itself (`self`), never another builder - and the only callers are the prepare_value impls"""
+    n = 0
+    for name, fn in f.fns.items():
+        if fn.get("hir") is None or is_test_fn(name):
+            continue
+        for c in H.calls(fn["hir"]):
+            if not (c.get("callee") or "").endswith("SqlWriter::push_param"):
+                continue
+            n += 1
+            short = name.rsplit("::", 1)[-1]
+            b = c["args"][1] if len(c.get("args") or []) > 1 else None
+            while isinstance(b, dict) and b.get("k") in ("cast", "addr", "deref", "paren"):
+                b = b.get("e")
+            ok = isinstance(b, dict) and b.get("k") == "local" and b.get("name") == "self"
+            run.ob("C02.R5", "push_param-builder:%s" % name, ok,
+                   "%s hands %s to push_param as the builder that renders the inline literal" % (short, "the rendering backend (self)" if ok else "something other than the rendering backend - the inline text would use another builder's literal syntax"),
+                   sp=c.get("sp"), cfg=cfg)
+            run.ob("C02.R5", "push_param-caller:%s" % name, short == "prepare_value",
+                   "push_param is called from %s%s" % (short, "" if short == "prepare_value" else " - values must be written through prepare_value of the rendering backend"),
+                   sp=c.get("sp"), cfg=cfg)
+    run.floor("C02.R5", "push_param-sites", n, {"full": 4, "single": 2}, cfg)
+    # no renderer conjures up another builder: a builder value (unit struct implementing QueryBuilder) appears only in
+    # its own Default impl and in Display for Value (the documented common-syntax rendering, see C03.R6)
+    qbs = {i["self_adt"] for i in f.trait_impls(QB)}
+    allowed = ("as core::default::Default>::default", "<crate::value::Value as core::fmt::Display>::fmt",
+               "crate::value::sea_value_to_json_value")     # conversion of a Value to JSON (with-json), not a SQL renderer
+    m = 0
+    for name, fn in f.fns.items():
+        if fn.get("hir") is None or is_test_fn(name):
+            continue
+        for nd in walk(fn["hir"]):
+            if nd.get("k") == "path" and (nd.get("def") in qbs or nd.get("ctor_of") in qbs):
+                m += 1
+                ok = any(name.endswith(a) for a in allowed)
+                run.ob("C02.R5", "builder-value:%s:%s" % (name, (nd.get("def") or "").rsplit("::", 1)[-1]), ok,
+                       "%s names the builder value %s%s" % (name.rsplit("::", 1)[-1], (nd.get("def") or "").rsplit("::", 1)[-1],
+                                                            "" if ok else " - rendering must go through the builder the caller chose"),
+                       sp=nd.get("sp"), cfg=cfg)
+    run.floor("C02.R5", "builder-values", m, 2, cfg)
+
+
 def check(run):
     for cfg in run.tier_configs(["default", "all"], ["mysql", "postgres", "sqlite"]):
         f = run.facts(cfg)
         check_impls(run, f, cfg)
+        check_push_param_sites(run, f, cfg)
         check_writer_census(run, f, cfg)
         if cfg in ("default", "all"):
             check_entry_points(run, f, cfg)
